@@ -49,9 +49,9 @@ pub fn gen_graph_project(rng: &mut Rng, tier: Tier, ptr: usize) -> Project {
         p_by_value: *rng.pick(&[20usize, 50, 80]),
         p_pointer: *rng.pick(&[0usize, 30, 60]),
         chain: rng.chance(1, 4),
-        n_undefined: *rng.pick(&[0usize, 0, 0, 1, 1, 2, 3]),
+        n_undefined: *rng.pick(&[0usize, 0, 0, 0, 0, 0, 1, 1, 2, 3]),
         undefined_positions: vec![],
-        n_cycles: *rng.pick(&[0usize, 0, 0, 1, 1, 2]),
+        n_cycles: *rng.pick(&[0usize, 0, 0, 0, 0, 0, 0, 1, 1, 2]),
         p_funcs: *rng.pick(&[0usize, 30, 70]),
         p_bases: *rng.pick(&[0usize, 20, 50]),
         extern_values: rng.chance(1, 2),
@@ -690,7 +690,11 @@ pub fn completeness(
     Ok(())
 }
 
-pub fn evaluate(case: &Case, results: &[Vec<RunResult>]) -> Verdict {
+pub fn evaluate(
+    case: &Case,
+    results: &[Vec<RunResult>],
+    report: &mut crate::case::CaseReport,
+) -> Verdict {
     let world = match parse_world(&case.worlds[0]) {
         Ok(w) => w,
         Err(e) => return Verdict::Vacuous(format!("world does not parse: {e}")),
@@ -700,6 +704,13 @@ pub fn evaluate(case: &Case, results: &[Vec<RunResult>]) -> Verdict {
         return Verdict::Vacuous("duplicate declarations are not part of C10 worlds".into());
     }
     let expect_err = model.expects_error();
+    report.count(if expect_err { "model:expects_err" } else { "model:expects_ok" }, 1);
+    if !model.unresolvable.is_empty() && model.undefined.is_empty() {
+        report.count("model:by_value_cycle_only", 1);
+    }
+    for u in &model.undefined {
+        report.count(&format!("model:undefined_in:{:?}", u.position), 1);
+    }
     for (bi, reps) in results.iter().enumerate() {
         for r in reps {
             match &r.outcome {
@@ -730,6 +741,7 @@ pub fn evaluate(case: &Case, results: &[Vec<RunResult>]) -> Verdict {
                     );
                 }
                 Outcome::Ok => {
+                    report.count("oracle:completeness_checked", 1);
                     if let Err((class, detail)) = completeness(&world, &model, r) {
                         return Verdict::violation(class, format!("build {bi}: {detail}"));
                     }
@@ -750,6 +762,7 @@ pub fn evaluate(case: &Case, results: &[Vec<RunResult>]) -> Verdict {
                 }
                 Outcome::Err(e) => {
                     if model.field_problems_only() {
+                        report.count("oracle:failed_list_checked", 1);
                         match failed_types(e) {
                             Some(listed) if listed == model.unresolvable => {}
                             Some(listed) => {
